@@ -20,6 +20,7 @@ RULE = ('every constructor of lite_api.tl and ton_api.tl whose field types are (
         'The registry is built under all 6 os.listdir orders of the three schema files. Block ids: grid of boundary values through to_bytes/from_bytes, '
         'to_dict/from_dict, hash/eq/dict-key use and the TL codec. non-trivial = value with at least one non-default choice or a variable-length field; '
         'states = distinct (constructor, deviation plan); transitions = serialize/deserialize calls; traces = reference encodings compared')
+RULE += ' Fifth session: the value returned by deserialize serialises back to exactly the bytes it was parsed from.'
 LEVEL_TEXT = ('Bounded-exhaustive: for every supported constructor of the bundled schemas every value within k deviations of the default (all flag '
               'combinations, all framing boundaries 253/254 and the 4-byte padding classes, all polymorphic alternatives) is encoded by the real code and '
               'compared byte for byte with an independent TL implementation, then parsed back and compared field by field.')
